@@ -85,7 +85,7 @@ pub fn scenario(u: &Unit) -> String {
     std::fs::write(p("c.csv"), &comps).unwrap();
     std::fs::write(p("f.csv"), "#META CTE_FUENTE: archivo\nELECTRICIDAD, RED, SUMINISTRO, A, 0.5, 2.0, 0.4\nRED1, RED, SUMINISTRO, A, 0.25, 1.0, 0.2\n").unwrap();
     // ---- command line
-    let mut args: Vec<String> = vec!["-c".into(), p("c.csv"), "--oc".into(), p("out.csv"), "--json".into(), p("out.json")];
+    let mut args: Vec<String> = vec!["-c".into(), p("c.csv"), "--oc".into(), p("out.csv"), "--json".into(), p("out.json"), "--xml".into(), p("out.xml"), "--txt".into(), p("out.txt")];
     if loc.starts_with("cli") {
         args.push("-l".into());
         args.push("PENINSULA".into());
@@ -160,6 +160,7 @@ pub fn scenario(u: &Unit) -> String {
     <F as Scalar>::note(format!("cteepbd {}", args.join(" ")));
     let oc = std::fs::read_to_string(p("out.csv")).ok();
     let json = std::fs::read_to_string(p("out.json")).ok();
+    let (xml, txt) = (std::fs::read_to_string(p("out.xml")).ok(), std::fs::read_to_string(p("out.txt")).ok());
     let _ = std::fs::remove_dir_all(&dir);
     let w = Dom::Range(-10.0, 1.0e7);
     let val = |given: char, name: &str| -> Option<F> { if given == 's' { Some(input(name, w)) } else { None } };
@@ -286,6 +287,32 @@ pub fn scenario(u: &Unit) -> String {
             }
         }
         None => ob("json.written", f()),
+    }
+    // the files the program writes: the XML document is well formed and states k_exp and the area, the text file is the
+    // report that was printed, the JSON document is valid and reads back as a result (natively: in the symbolic build
+    // numbers are printed as placeholders)
+    match &xml {
+        Some(x) => {
+            ob("xml-file.well-formed", if super::c17::xml_well_formed(x).is_ok() { t() } else { f() });
+            match x.split("<kexp>").nth(1).and_then(|r| r.split("</kexp>").next()).and_then(|v| v.trim().parse::<F>().ok()) {
+                Some(g) => ob("xml-file.kexp", g.close_dec(k_eff, 2, 1.0)),
+                None => ob("xml-file.kexp.present", f()),
+            }
+            match x.split("<AreaRef>").nth(1).and_then(|r| r.split("</AreaRef>").next()).and_then(|v| v.trim().parse::<F>().ok()) {
+                Some(g) => ob("xml-file.AreaRef", g.close_dec(a_eff, 2, 1.0)),
+                None => ob("xml-file.AreaRef.present", f()),
+            }
+        }
+        None => ob("xml-file.written", f()),
+    }
+    match &txt {
+        Some(x) => ob("txt-file=printed-report", if !x.trim().is_empty() && stdout.contains(x.trim()) { t() } else { f() }),
+        None => ob("txt-file.written", f()),
+    }
+    if !<F as Scalar>::LIFTED {
+        if let Some(js) = &json {
+            ob("json-file.reads-back", if serde_json::from_str::<cteepbd::types::EnergyPerformance>(js).is_ok() { t() } else { f() });
+        }
     }
     match first_num_after(&stdout, "k_exp =") {
         Some(g) => ob("plain.k_exp", g.close_dec(k_eff, 2, 1.0)),
